@@ -151,11 +151,12 @@ Astype(x, k) == [err |-> FALSE, shape |-> x.sh, kind |-> k,
 
 \* ufunc(x, y, out=o, where=w); o, w may be Absent.  The result has the kind of
 \* out; cells where w is false keep out's value (don't-care without out); the
-\* mask must be boolean (NumPy casts where= with the rule 'safe').
+\* mask array must be boolean (NumPy casts where= with the rule 'safe'; a Python
+\* scalar is taken by its truth value).
 OutWhere(op, x, y, o, w) ==
   LET shapes == ShapesOf(<<x, y, w, o>>)
       rk     == OpKind(op, KindOf(<<x, y>>))
-  IN IF ~BroadcastOK(shapes) \/ rk = "E" \/ (Present(w) /\ w.k # "b") THEN Err
+  IN IF ~BroadcastOK(shapes) \/ rk = "E" \/ (Present(w) /\ w.k # "b" /\ w.f # "s") THEN Err
      ELSE LET osh == BroadcastShape(shapes) IN
      IF Present(o) /\ (o.sh # osh \/ ~CanCastSameKind(rk, o.k)) THEN Err
      ELSE LET xa == BroadcastTo(x.sh, x.v, osh)
